@@ -41,8 +41,10 @@ properties! {
     "C15" => c15,
     "C16" => c16,
     "C17" => c17,
+    "C18" => c18,
     "C06" => c06,
     "C19" => c19,
+    "C20" => c20,
 }
 
 /// helper for replay functions
